@@ -338,13 +338,14 @@ func overlapPairs(all []opRec) (int, map[string]int) {
 
 // The model is the property's sentence "reports a controller running exactly from a
 // successful start until its stop": one boolean per controller name.
-//   Start ok          -> running            Start error -> unchanged (legal in any state)
-//   Stop              -> not running
-//   IsRunning = b     -> legal iff b == running
-//   StartWatches / StopWatches / GetWatches
-//        nil error            -> legal iff running
-//        "is not running"     -> legal iff not running
-//        any other error      -> legal in any state (it says nothing about running)
+//
+//	Start ok          -> running            Start error -> unchanged (legal in any state)
+//	Stop              -> not running
+//	IsRunning = b     -> legal iff b == running
+//	StartWatches / StopWatches / GetWatches
+//	     nil error            -> legal iff running
+//	     "is not running"     -> legal iff not running
+//	     any other error      -> legal in any state (it says nothing about running)
 type pIn struct {
 	kind string
 }
